@@ -17,15 +17,21 @@ for d in sorted(os.listdir(os.path.join(ROOT, "seeded"))):
     if os.path.exists(rp):
         res = open(rp).read().strip()
     verdict = "not run"
+    first = res.split("\n")[0] if res else ""
     if "VIOLATION" in res:
-        verdict = "caught (no-failing-input-found)" if "no-failing-input-found" in res and not re.search(r"VIOLATION property=\w+ replay=\S+\s*($|\n)(?!.*no-failing)", res) else "caught (concrete replay)"
-        if res.count("VIOLATION") >= 1 and "no-failing-input-found" not in res.split("VIOLATION", 1)[1].split("\n")[0]:
-            verdict = "caught (concrete replay)"
-    elif res.startswith("OK") or "\nOK " in res or " OK " in res:
+        vline = [l for l in res.split("\n") if "VIOLATION" in l][0]
+        concrete = "no-failing-input-found" not in vline
+        verdict = "caught, concrete replay" if concrete else "caught, no-failing-input-found"
+        if first.startswith("OK") or "MISSED" in first:
+            verdict = "missed by the property's own check; " + verdict + " by another check"
+        if "first version" in res or "Missed by the first" in res or "missed by the first" in res or "Missed before" in res:
+            verdict += " (after the check was strengthened)"
+    elif first.startswith("OK") or "MISSED" in res:
         verdict = "MISSED"
     what = (meta.get("what_breaks") or "").replace("\n", " ")
     needs = (meta.get("needs_to_manifest") or "").replace("\n", " ")
-    rows.append((d, what[:160], needs[:140], verdict, res.split("\n")[0][:160] if res else ""))
+    esc = lambda t: t.replace("|", "/")
+    rows.append((d, esc(what[:160]), esc(needs[:140]), verdict, esc(res.split("\n")[0][:160]) if res else ""))
 print("| change | what it breaks | needs | verdict of `./check` | detail |")
 print("|---|---|---|---|---|")
 for r in rows:
